@@ -244,6 +244,58 @@ Proof.
     + cbn. apply negb_true_iff. apply N.eqb_neq. exact Hne.
 Qed.
 
+(* Verification through another key (unreadable new key file, password shared): the key commands
+   still never lock the user out. *)
+Lemma search_key_found_good keys pw maxk hg hm id m :
+  search_key keys pw maxk hg hm = SFound id m ->
+  exists k, In k keys /\ k_id k = id /\ k_pw k = pw /\ k_good k = true.
+Proof.
+  unfold search_key.
+  assert (Hfb : search_list keys pw maxk 0 = SFound id m ->
+                exists k, In k keys /\ k_id k = id /\ k_pw k = pw /\ k_good k = true).
+  { intros H. destruct (search_list_found_sound _ _ _ _ _ _ H) as [k [H1 [H2 [H3 [_ H5]]]]]. exists k; auto. }
+  destruct hg; [|exact Hfb].
+  destruct hm as [|h [|h2 t]]; try exact Hfb.
+  destruct (lookup keys h) as [k|] eqn:El; [|exact Hfb].
+  destruct (open_key k pw) as [m'| |] eqn:Eo; try exact Hfb.
+  intros H; inversion H; subst. apply open_key_ok in Eo as [Hg [Hp _]].
+  apply lookup_In in El as [Hin _]. exists k; auto.
+Qed.
+
+(* Whatever the listing order and whichever key files are readable: the key in use is not removed,
+   or it is removed by key passwd and then a READABLE key with the NEW password, different from the
+   key in use, is in the listing and is not removed. *)
+Lemma listing_verification_never_locks_out listing cur newid c :
+  newid <> cur ->
+  let ops := cmd_ops_listing listing cur newid c in
+  (~ In (KRemove cur) ops) \/
+  (exists pw k, c = CPasswd pw /\ In k listing /\ k_good k = true /\ k_pw k = pw /\ k_id k <> cur /\
+                ~ In (KRemove (k_id k)) ops).
+Proof.
+  intros Hne. cbn zeta. destruct c as [pw|pw|t]; cbn [cmd_ops_listing].
+  - left. destruct (search_key listing pw 0 true [newid]) as [f m| | |];
+      intros H; cbn in H; repeat (destruct H as [H|H]; try discriminate; try (inversion H; congruence)); try contradiction.
+  - destruct (search_key listing pw 0 true [newid]) as [f m| | |] eqn:E.
+    + destruct (N.eqb f cur) eqn:Ef.
+      * left. intros H; cbn in H. destruct H as [H|[]]. discriminate.
+      * right. apply N.eqb_neq in Ef.
+        destruct (search_key_found_good _ _ _ _ _ _ _ E) as [k [Hin [Hid [Hp Hg]]]].
+        exists pw, k. subst f. repeat split; auto.
+        intros H; cbn in H. destruct H as [H|[H|[]]]; [discriminate | inversion H; congruence].
+    + left. intros H; cbn in H. destruct H as [H|[H|[]]]; [discriminate | inversion H; congruence].
+    + left. intros H; cbn in H. destruct H as [H|[H|[]]]; [discriminate | inversion H; congruence].
+    + left. intros H; cbn in H. destruct H as [H|[H|[]]]; [discriminate | inversion H; congruence].
+  - left. destruct (N.eqb t cur) eqn:E; intros H; cbn in H; [exact H|].
+    destruct H as [H|[]]. inversion H. subst t. rewrite N.eqb_refl in E. discriminate.
+Qed.
+
+(* and no password opens that should not: the session after the verification uses a key that was
+   created with the new password *)
+Lemma listing_verification_sound listing pw newid f m :
+  search_key listing pw 0 true [newid] = SFound f m ->
+  exists k, In k listing /\ k_id k = f /\ k_pw k = pw /\ k_good k = true.
+Proof. apply search_key_found_good. Qed.
+
 (* ---------- oracle ---------- *)
 Lemma alive_all_prefixes_spec master cur newid tr : forall st,
   alive_all_prefixes master cur newid st tr = true <->
